@@ -35,7 +35,9 @@ class Exp(Transform):
 class Tanh(Transform):
     def forward(self, inputs, context=None):
         outputs = torch.tanh(inputs)
-        logabsdet = torch.log(1 - outputs ** 2)
+        # log(1 - tanh(x)^2) written without the cancellation in 1 - tanh^2 (which loses most
+        # single-precision digits already for |x| around 5).
+        logabsdet = 2 * (np.log(2.0) - inputs - F.softplus(-2 * inputs))
         logabsdet = torchutils.sum_except_batch(logabsdet, num_batch_dims=1)
         return outputs, logabsdet
 
